@@ -27,7 +27,7 @@ K_F19 = "F19:merge-two-massless-nan"
 K_F19H = "F19:hardsphere-two-massless-nan"
 
 
-VARIANT = ["0"] * 6      # RmVariant flags (5) + purge-flagged-at-end-of-search, determined in run()
+VARIANT = ["0"] * 7      # RmVariant flags (5) + purge-flagged-at-end-of-search, determined in run()
 PURGE = [False]          # fixes/C13-tree-merge-remove-at-boundary.diff applied? (probed in run())
 RESFLAGS = {"merge": "0", "hs": "0"}     # massless guards of the built-in resolvers (probed in run())
 VARIANT_NAMES = ["rangeFirst", "lastResetsNActive", "lastDeletesTree", "sortedTreeErrFirst", "unsortedClampNActive"]
@@ -69,6 +69,9 @@ def gen_spec(rng, idx, thorough=False):
         if boundary in ("periodic", "shear") and rng.chance(0.65):
             cen = [(rng.choice([-1, 1]) * (L / 2 - rng.uniform(0, 1.5 * r0))) if rng.chance(0.6)
                    else rng.uniform(-L / 2, L / 2) for _ in range(3)]
+            if boundary == "shear" and rng.chance(0.7):
+                # pairs touching across the radial edge: their images carry the shear velocity -1.5*OMEGA*Lx
+                cen[0] = rng.choice([-1, 1]) * (L / 2 - rng.uniform(0, 0.8 * r0))
         else:
             cen = [rng.uniform(-L / 4, L / 4) for _ in range(3)]
         shape = rng.choice(["chain", "clump", "clump", "star", "flyby"] if collision in ("line", "linetree") else ["chain", "clump", "clump", "star", "star", "flyby"])
@@ -188,7 +191,62 @@ def gen_spec(rng, idx, thorough=False):
         spec["ks"] = 0 if rng.chance(0.9) else 1        # sorted removal + tree is rejected by the code (F4)
     if spec["gravity"] == "tree" and spec["ks"] == 1 and rng.chance(0.8):
         spec["ks"] = 0
-    if rng.chance(0.3):
+    if boundary == "shear" and rng.chance(0.6):
+        if nghost[0] == 0:
+            spec["nghost"] = [1, 1, 0]
+        spec["res"] = ["hs", rng.choice([None, 1.0, 0.5])]
+    force_lf = False
+    if collision in ("tree", "linetree") and boundary != "shear" and integ == "none" and rng.chance(0.2):
+        # impact family: fast movers arriving from distant cells of the tree within one step, each with a slow
+        # bystander next to its mid-step position (where the tree was last brought up to date) so that those cells
+        # are refined; the pair overlaps only at the end of the step
+        del parts[:]
+        hid2 = 5000
+        dtv = spec["dt"]
+        for _ in range(rng.choice([1, 1, 2])):
+            end = [rng.uniform(-L / 8, L / 8) for _ in range(3)]
+            rr = [rng.loguniform(0.004, 0.02) * L for _ in range(2)]
+            for k in range(2):
+                e = [rng.normal() for _ in range(3)]
+                en = math.sqrt(sum(x * x for x in e)) or 1.0
+                travel = [x / en * rng.uniform(0.2, 0.34) * L for x in e]
+                off = [rng.normal() for _ in range(3)]
+                on = math.sqrt(sum(x * x for x in off)) or 1.0
+                sep = rng.uniform(0.1, 0.9) * (rr[0] + rr[1]) * (0.5 if k else -0.5)
+                pe = [end[a] + off[a] / on * sep * (1 if k else 1) for a in range(3)] if k else list(end)
+                hid2 += 7
+                parts.append(dict(id=hid2, x=pe[0], y=pe[1], z=pe[2], vx=travel[0] / dtv, vy=travel[1] / dtv, vz=travel[2] / dtv,
+                                  m=rng.loguniform(1e-2, 1e2), r=rr[k]))
+                mid = [pe[a] - 0.5 * travel[a] for a in range(3)]
+                for _b in range(rng.choice([1, 2])):
+                    hid2 += 7
+                    bo = [rng.normal() for _ in range(3)]
+                    bn = math.sqrt(sum(x * x for x in bo)) or 1.0
+                    bd = rng.uniform(0.02, 0.07) * L
+                    parts.append(dict(id=hid2, x=mid[0] + bo[0] / bn * bd, y=mid[1] + bo[1] / bn * bd, z=mid[2] + bo[2] / bn * bd,
+                                      vx=0.0, vy=0.0, vz=0.0, m=1.0, r=rng.choice([0.0, 1e-3 * L])))
+        for p in parts:
+            for a in "xyz":
+                p[a] = max(-0.49 * L, min(0.49 * L, p[a]))
+        rng.shuffle(parts)
+        spec["n_active"] = None
+        spec["parts"] = parts
+        spec["gravity"] = "none"
+        force_lf = True
+    if integ == "none" and spec["gravity"] == "none" and boundary != "shear" and (force_lf or rng.chance(0.35)):
+        # a full reb_simulation_step with a moving integrator: the designed configuration is the one at the END of
+        # the step (positions are moved back by v*dt), so particles arrive from other cells of the tree
+        spec["integrator"] = "leapfrog"
+        spec["use_step"] = 1
+        for p in parts:
+            p["x"] -= p["vx"] * spec["dt"]; p["y"] -= p["vy"] * spec["dt"]; p["z"] -= p["vz"] * spec["dt"]
+            if boundary == "periodic":
+                for a in "xyz":
+                    p[a] = ((p[a] + L / 2) % L) - L / 2
+            else:
+                for a in "xyz":
+                    p[a] = max(-0.49 * L, min(0.49 * L, p[a]))
+    if rng.chance(0.3) and "res" not in spec:
         spec["mcv"] = rng.loguniform(1e-3, 1e2)        # minimum_collision_velocity (hard-sphere clamp)
     if collision == "direct" and integ == "none" and spec["gravity"] == "none" and rng.chance(0.12):
         spec["nvar"] = 1                                # variational particles: removals are refused
@@ -405,8 +463,14 @@ def probe_variant(W):
     sim.add(m=1.0, r=0.1, x=4.0, hash=3)
     sim.t = 1.0
     sim.collision_resolve = "merge"
+    sim.N_active = 3
     W.clib.reb_collision_search(ctypes.byref(sim))
     f["treePurgeAtEnd"] = int(sim.N == 2)
+    # does reb_simulation_update_tree clamp N_active to N after dropping flagged particles (9a64eba)?
+    if sim.N == 3:
+        W.clib.reb_simulation_update_tree.restype = None
+        W.clib.reb_simulation_update_tree(ctypes.byref(sim))
+    f["treeUpdateClampsNActive"] = int(sim.N == 2 and sim.N_active == 2)
     return f
 
 
@@ -592,7 +656,7 @@ def scenario(c, W, exe_lines, spec, tag, stats):
 
     # ---- search oracle on the real code (does not use the model)
     line = col in ("line", "linetree")
-    orc = oracle_pairs(spec, stateR, tab, A["dtl"], line) if spec["integrator"] == "none" and spec["boundary"] != "shear" else None
+    orc = oracle_pairs(spec, stateR, tab, A["dtl"], line) if spec["integrator"] in ("none", "leapfrog") and spec["boundary"] != "shear" else None
     if orc is not None:
         repset = {}
         for (p1, p2, gh) in reported:
@@ -662,7 +726,11 @@ def scenario(c, W, exe_lines, spec, tag, stats):
         ttoks, ncell = tree_tokens(simA)
         stats["tree_cells"] += ncell
         li_t = len(exe_lines)
-        tl = ["T", col, d2h(A["dtl"]), d2h(A["maxr_pre"][0]), d2h(A["maxr_pre"][1])] + ring_tokens(spec, tab) + [str(len(stateA))]
+        # integrator none: exact tie of reb_collision_update_max_radius from the values before the call; with a moving
+        # integrator the tree updates inside the step re-add moved particles (reb_simulation_add counts their radius again,
+        # a safe over-estimate), so there the values after the search must be a fixed point of the rescan (= bounds)
+        mr_in = A["maxr_pre"] if spec["integrator"] == "none" else A["maxr"]
+        tl = ["T", col, d2h(A["dtl"]), d2h(mr_in[0]), d2h(mr_in[1])] + ring_tokens(spec, tab) + [str(len(stateA))]
         for p in stateA:
             tl.append(str(p[0]))
             tl += [d2h(v) for v in p[1:]]
@@ -933,7 +1001,17 @@ def check_hs(c, spec, B, res, stats):
             continue
         (a0, b0), (a1, b1), g, out, t = rec
         if a0[3:6] == a1[3:6] and b0[3:6] == b1[3:6]:
-            continue        # early return (not overlapping / not approaching)
+            # early return (not overlapping / not approaching) — verify it in the frame of the ghost image of p1
+            dd = [a0[k] + g[k] - b0[k] for k in range(3)]
+            vv = [a0[3 + k] + g[3 + k] - b0[3 + k] for k in range(3)]
+            d2 = math.fsum(x * x for x in dd)
+            sr = a0[7] + b0[7]
+            dot = math.fsum(dd[k] * vv[k] for k in range(3))
+            sc2 = math.sqrt(d2 * math.fsum(x * x for x in vv)) + 1e-300
+            if d2 < sr * sr * (1 - 1e-9) and dot < -1e-9 * sc2 and all(v == v for v in a0[:6] + b0[:6]) and a0[6] + b0[6] != 0.0:
+                c.violation("hardsphere-no-bounce", "overlapping pair approaching in the frame of the ghost image (d.v = %.3g, ghost velocity %r) is left untouched by the resolver" % (dot, list(g[3:6])),
+                            dict(spec=spec, rec=rec))
+            continue
         stats["bounces"] += 1
         m1, m2 = a0[6], b0[6]
         if m1 + m2 == 0.0:
@@ -1082,7 +1160,7 @@ def run(c):
                            "agree": sflags == flags, "problems": problems}
     if sflags is None:
         c.broken.append("extraction: reb_simulation_remove_particle no longer has the structure the model mirrors: " + "; ".join(problems))
-    VARIANT[:] = [str(flags[k]) for k in VARIANT_NAMES] + [str(flags["treePurgeAtEnd"])]
+    VARIANT[:] = [str(flags[k]) for k in VARIANT_NAMES] + [str(flags["treePurgeAtEnd"]), str(flags["treeUpdateClampsNActive"])]
     PURGE[0] = bool(flags["treePurgeAtEnd"])
     RESFLAGS.update(merge=str(flags["mergeMasslessMidpoint"]), hs=str(flags["hsMasslessEqual"]))
     if sflags is not None:
